@@ -2,7 +2,7 @@
 import ast
 
 from sa.core import (AnalysisError, call_name, const, dotted, enclosing_func, is_name, literal, norm, parent, walk_local,
-                     names_in, assignments, params, enclosing_stmt)
+                     names_in, assignments, params, enclosing_stmt, ancestors)
 from sa.guards import facts
 
 PROP = "C20"
@@ -248,6 +248,8 @@ def _encoder(cx, enc, mod, alpha_name, len_name):
     """Returns 'LSD-first' / 'MSD-first' or None; records R20c obligations."""
     num = params(enc)[0]
     loops = [n for n in enc.body if isinstance(n, ast.While)]
+    if len(loops) != 1:
+        _variable_groups(cx, enc)
     cx.need(len(loops) == 1, "R20c", enc, "encoder: expected one while loop over the quotient")
     loop = loops[0]
     t = loop.test
@@ -412,3 +414,42 @@ def _decoder(cx, dec, mod, alpha_name, index_name):
         cx.ob("R20c", st, ok, "Horner step acc = acc * B + IDX[c] with B = size of the alphabet" if ok else "decoder step is not acc*B + IDX[c] over the alphabet size / index map")
         order = "LSD-first" if rev else "MSD-first"
     return order
+
+
+def _variable_groups(cx, enc):
+    """The number is converted in several groups.  A `while x: x, d = divmod(x, B)` (or %, //) loop emits as many digits as
+    x happens to have; if further digits can be emitted after it without the output being padded to a fixed length first,
+    the position of those digits depends on the value of the earlier group: the string is not positional (decoder reads a
+    different number).  Only this definite case is refuted; any other multi-group form stays undecided."""
+    def is_digit_loop(w):
+        if not isinstance(w, ast.While):
+            return False
+        t = w.test
+        v = t.id if isinstance(t, ast.Name) else (t.left.id if isinstance(t, ast.Compare) and isinstance(t.left, ast.Name) else None)
+        if v is None:
+            return False
+        shrinks = any((isinstance(st, ast.Assign) and isinstance(st.value, ast.Call) and call_name(st.value) == "divmod" and any(is_name(e, v) for e in ast.walk(st.targets[0])))
+                      or (isinstance(st, ast.AugAssign) and is_name(st.target, v) and isinstance(st.op, ast.FloorDiv)) for st in w.body)
+        emits = any(isinstance(st, ast.AugAssign) and isinstance(st.op, ast.Add) and isinstance(st.value, ast.Subscript) for st in w.body) \
+            or any(isinstance(c, ast.Call) and call_name(c) == "append" for st in w.body for c in ast.walk(st))
+        return shrinks and emits
+
+    def pads(st):
+        # out += X * (...), out = out.ljust(..) / rjust / zfill, out += pad-string of computed length
+        if isinstance(st, ast.AugAssign) and isinstance(st.value, ast.BinOp) and isinstance(st.value.op, ast.Mult):
+            return True
+        return any(isinstance(c, ast.Call) and call_name(c) in ("ljust", "rjust", "zfill", "center", "extend") for c in ast.walk(st))
+
+    dl = [w for w in ast.walk(enc) if is_digit_loop(w)]
+    for w in dl:
+        blk = parent(w)
+        body = blk.body if w in getattr(blk, "body", []) else (blk.orelse if w in getattr(blk, "orelse", []) else None)
+        if body is None:
+            continue
+        after = body[body.index(w) + 1:]
+        padded_here = any(pads(st) for st in after)
+        multi_iter = isinstance(blk, (ast.For, ast.While)) and not (isinstance(blk, ast.For) and isinstance(blk.iter, (ast.Tuple, ast.List)) and len(blk.iter.elts) < 2)
+        later_loop = any(x is not w and x.lineno > w.lineno and not any(a is w for a in ancestors(x)) for x in dl)
+        if (multi_iter or later_loop) and not padded_here:
+            cx.ob("R20c", w, False, "this loop emits as many digits as its group happens to have, and more digits are emitted afterwards "
+                  "without padding the group to a fixed length: later digits land at value-dependent positions (the string decodes to another number)")
